@@ -8,7 +8,7 @@
    `presented s` = samples made available to read/take, `s_log s` = publication log,
    `s_changes s` = what the writer still holds, `delivered s` = every held change that is relevant for
    the reliable matched reader is in its presented list. *)
-From DustDDS Require Import Base.Machine Proto.RelModel Proto.RelProofs Proto.RelSoundG Proto.RelLive Proto.RelWitness.
+From DustDDS Require Import Base.Machine Proto.RelModel Proto.RelProofs Proto.RelSoundG Proto.RelLive Proto.RelLiveH Proto.RelWitness.
 Open Scope Z_scope.
 
 (* SAFETY, unbounded: for every configuration and EVERY finite schedule (any loss, duplication,
@@ -35,32 +35,34 @@ Theorem C01_reliable_no_skip :
       forall c, In c (s_changes s) -> rp_fr p < c_sn c -> c_sn c <= avail_max w -> In c (rd_pres r).
 Proof. exact no_skip. Qed.
 
-(* LIVENESS, the proved part (stage 1: hole-free and unfragmented; the general case - histories with holes,
-   fragmented samples - is exercised by the scenarios of the check and by the examples below).  KEEP_ALL writer (depth = 0), schedules
-   without removal from the history cache and without deletion of the reader, every sample fits one DATA
-   submessage, at most 256 samples: after ANY such schedule (all loss / duplication / reordering /
-   delay patterns, late joiners of any durability), five ticks of the worker (250 ms >= the heartbeat
+(* LIVENESS, the proved part: ANY history QoS - KEEP_ALL or KEEP_LAST(d) with any number of instances, so the
+   sequence numbers the writer holds may have holes (former finding C01-gap-skip lived exactly there) -,
+   schedules without explicit removal from the history cache and without deletion of the reader, every sample
+   fits one DATA submessage, at most 256 samples: after ANY such schedule (all loss / duplication / reordering
+   / delay patterns, late joiners of any durability), five ticks of the worker (250 ms >= the heartbeat
    period) and ANY loss-free delivery sequence - single deliveries in any order, FIFO pumps - whenever
-   nothing is queued any more, every change the writer holds and that is relevant for the RELIABLE
-   matched reader has been presented.  Proof: class invariant (GAPs only cover irrelevant samples,
-   nothing relevant below highest_received is skipped, counts bounded) plus a healing invariant: the
-   newest HEARTBEAT is on its way or processed; once processed, the newest ACKNACK - which requests the
-   last sample - is on its way; when the writer processes it, it emits a newer HEARTBEAT. *)
+   nothing is queued any more, every change the writer holds and that is relevant for the RELIABLE matched
+   reader has been presented.  Proof: the general soundness invariant (a GAP in flight only covers sequence
+   numbers at which nothing relevant is held; whatever the reader accounts for has been presented) plus a
+   healing invariant: the newest HEARTBEAT is on its way or processed; once processed, the newest ACKNACK -
+   which requests the last sample - is on its way; when the writer processes it, it emits a newer HEARTBEAT.
+   `_partial`: fragmented samples are not covered by the theorem (they are by the scenarios of the check and
+   the examples below). *)
 Theorem C01_reliable_liveness_partial :
   forall cf sched dels,
-    0 < fsz cf -> depth cf = 0 ->
+    0 < fsz cf ->
     forallb (live_act cf) sched = true -> forallb is_delivery dels = true ->
     let s := run cf init (sched ++ five_ticks ++ dels) in
     s_last s <= 256 -> s_net s = [] -> delivered s.
-Proof. exact reliable_liveness_unfragmented. Qed.
+Proof. exact reliable_liveness_holes. Qed.
 
 (* the same in scenario vocabulary: k + 1 healing rounds, nothing queued at the end *)
 Theorem C01_reliable_liveness_heal_partial :
   forall cf sched k,
-    0 < fsz cf -> depth cf = 0 -> forallb (live_act cf) sched = true ->
+    0 < fsz cf -> forallb (live_act cf) sched = true ->
     let s := run cf init (sched ++ heal (S k)) in
     s_last s <= 256 -> s_net s = [] -> delivered s.
-Proof. exact reliable_liveness_heal. Qed.
+Proof. exact reliable_liveness_holes_heal. Qed.
 
 (* the schedule that exposed C01-gap-skip, on the repaired code (replayed on the real stack by the corpus of
    the check): KEEP_LAST(1), two instances, the writer holds {1,3}, DATA(1) is lost: the non-contiguous
